@@ -222,6 +222,7 @@ async fn write_file(fm: &FileManager, file_type: FileType, data: &[u8]) -> Resul
 		options
 			.write(true)
 			.create(true)
+			.truncate(true)
 			.open(&path)
 			.await
 			.map_err(|e| Error::from(e).prefix(&path.display().to_string()))?
